@@ -19,7 +19,7 @@ for d in seeded/C*-*/; do
   checks="$p $(grep "^$s " seeded/EXTRA 2>/dev/null | cut -d' ' -f2-)"
   for c in $checks; do echo "$s $c"; done
 done > /tmp/seed_jobs.txt
-cat /tmp/seed_jobs.txt | xargs -P 6 -L 1 bash -c '/verif/tools/seed_run.sh $0 $1' | tee $OUT.tmp
+cat /tmp/seed_jobs.txt | xargs -P ${SEED_P:-6} -L 1 bash -c '/verif/tools/seed_run.sh $0 $1' | tee $OUT.tmp
 if [ -n "$SEEDS" ] && [ -f $OUT ]; then
   for s in $SEEDS; do grep -v "^seed=$s " $OUT > $OUT.keep; mv $OUT.keep $OUT; done
   cat $OUT >> $OUT.tmp
